@@ -21,34 +21,31 @@ pub open spec fn name_dec(t: Seq<u8>, i: int, acc: Seq<u8>) -> Option<(Seq<u8>, 
     } else { name_dec(t, i + 1, acc.push(t[i])) }
 }
 
-// ---- the escaping used by writer/incremental_update.rs::write_name ---------------------------------------------------
-pub open spec fn incr_safe(b: u8) -> bool {
-    (0x30 <= b <= 0x39) || (0x41 <= b <= 0x5A) || (0x61 <= b <= 0x7A)
-    || b == 0x2B || b == 0x2D || b == 0x2E || b == 0x5F || b == 0x40 || b == 0x24 || b == 0x3A || b == 0x3B || b == 0x2A || b == 0x3F
+// ---- escaping: bytes satisfying `safe` are copied, every other byte is written as #XX (upper-case hex) ----------------
+pub open spec fn safe_ok(safe: spec_fn(u8) -> bool) -> bool { forall|b: u8| #[trigger] safe(b) ==> !is_ws(b) && !is_delim(b) && b != 0x23u8 }
+pub open spec fn nesc1(safe: spec_fn(u8) -> bool, b: u8) -> Seq<u8> {
+    if safe(b) { seq![b] } else { seq![0x23u8, hex_digit(b as int / 16), hex_digit(b as int % 16)] }
 }
-pub open spec fn name_esc1(b: u8) -> Seq<u8> {
-    if incr_safe(b) { seq![b] } else { seq![0x23u8, hex_digit(b as int / 16), hex_digit(b as int % 16)] }
+pub open spec fn nesc(safe: spec_fn(u8) -> bool, s: Seq<u8>) -> Seq<u8> decreases s.len() {
+    if s.len() == 0 { Seq::empty() } else { nesc1(safe, s[0]) + nesc(safe, s.subrange(1, s.len() as int)) }
 }
-pub open spec fn name_esc(s: Seq<u8>) -> Seq<u8> decreases s.len() {
-    if s.len() == 0 { Seq::empty() } else { name_esc1(s[0]) + name_esc(s.subrange(1, s.len() as int)) }
-}
-pub proof fn lemma_name_esc_push(s: Seq<u8>, b: u8)
-    ensures name_esc(s.push(b)) == name_esc(s) + name_esc1(b),
+pub proof fn lemma_nesc_push(safe: spec_fn(u8) -> bool, s: Seq<u8>, b: u8)
+    ensures nesc(safe, s.push(b)) == nesc(safe, s) + nesc1(safe, b),
     decreases s.len()
 {
     if s.len() == 0 {
         let sp = s.push(b);
         assert(sp.len() == 1 && sp[0] == b);
         assert(sp.subrange(1, sp.len() as int) =~= Seq::<u8>::empty());
-        assert(name_esc(Seq::<u8>::empty()) =~= Seq::<u8>::empty());
-        assert(name_esc(sp) == name_esc1(sp[0]) + name_esc(sp.subrange(1, sp.len() as int)));
-        assert(name_esc1(b) + Seq::<u8>::empty() =~= name_esc1(b));
-        assert(name_esc(s) + name_esc1(b) =~= name_esc1(b));
+        assert(nesc(safe, Seq::<u8>::empty()) =~= Seq::<u8>::empty());
+        assert(nesc(safe, sp) == nesc1(safe, sp[0]) + nesc(safe, sp.subrange(1, sp.len() as int)));
+        assert(nesc1(safe, b) + Seq::<u8>::empty() =~= nesc1(safe, b));
+        assert(nesc(safe, s) + nesc1(safe, b) =~= nesc1(safe, b));
     } else {
         let t = s.subrange(1, s.len() as int);
         assert(s.push(b).subrange(1, s.len() as int + 1) =~= t.push(b));
-        lemma_name_esc_push(t, b);
-        assert(name_esc1(s[0]) + (name_esc(t) + name_esc1(b)) =~= (name_esc1(s[0]) + name_esc(t)) + name_esc1(b));
+        lemma_nesc_push(safe, t, b);
+        assert(nesc1(safe, s[0]) + (nesc(safe, t) + nesc1(safe, b)) =~= (nesc1(safe, s[0]) + nesc(safe, t)) + nesc1(safe, b));
     }
 }
 pub proof fn lemma_hex_digit(n: int)
@@ -56,27 +53,27 @@ pub proof fn lemma_hex_digit(n: int)
     ensures hex_val(hex_digit(n)) == n, !is_ws(hex_digit(n)), !is_delim(hex_digit(n)),
 {}
 // an ISO reader gets the original bytes back from the escaped token, whatever follows it (end of input, white space or a delimiter)
-pub proof fn lemma_name_roundtrip(s: Seq<u8>, pre: Seq<u8>, rest: Seq<u8>, acc: Seq<u8>)
-    requires rest.len() == 0 || is_ws(rest[0]) || is_delim(rest[0]),
-    ensures name_dec(pre + name_esc(s) + rest, pre.len() as int, acc) == Some((acc + s, (pre.len() + name_esc(s).len()) as int)),
+pub proof fn lemma_name_roundtrip(safe: spec_fn(u8) -> bool, s: Seq<u8>, pre: Seq<u8>, rest: Seq<u8>, acc: Seq<u8>)
+    requires safe_ok(safe), rest.len() == 0 || is_ws(rest[0]) || is_delim(rest[0]),
+    ensures name_dec(pre + nesc(safe, s) + rest, pre.len() as int, acc) == Some((acc + s, (pre.len() + nesc(safe, s).len()) as int)),
     decreases s.len()
 {
-    let t = pre + name_esc(s) + rest;
+    let t = pre + nesc(safe, s) + rest;
     let i = pre.len() as int;
     if s.len() == 0 {
-        assert(name_esc(s) =~= Seq::<u8>::empty());
+        assert(nesc(safe, s) =~= Seq::<u8>::empty());
         assert(acc + s =~= acc);
         if rest.len() > 0 { assert(t[i] == rest[0]); }
     } else {
         let b = s[0];
         let tail = s.subrange(1, s.len() as int);
-        let pre2 = pre + name_esc1(b);
-        assert(name_esc(s) == name_esc1(b) + name_esc(tail));
-        assert(t =~= pre2 + name_esc(tail) + rest);
-        lemma_name_roundtrip(tail, pre2, rest, acc.push(b));
+        let pre2 = pre + nesc1(safe, b);
+        assert(nesc(safe, s) == nesc1(safe, b) + nesc(safe, tail));
+        assert(t =~= pre2 + nesc(safe, tail) + rest);
+        lemma_name_roundtrip(safe, tail, pre2, rest, acc.push(b));
         assert(acc.push(b) + tail =~= acc + s);
-        assert(name_esc(s).len() == name_esc1(b).len() + name_esc(tail).len());
-        if incr_safe(b) {
+        assert(nesc(safe, s).len() == nesc1(safe, b).len() + nesc(safe, tail).len());
+        if safe(b) {
             assert(t[i] == b);
         } else {
             lemma_hex_digit(b as int / 16); lemma_hex_digit(b as int % 16);
@@ -87,3 +84,10 @@ pub proof fn lemma_name_roundtrip(s: Seq<u8>, pre: Seq<u8>, rest: Seq<u8>, acc: 
         }
     }
 }
+// the safe sets of the two writers
+pub open spec fn incr_safe(b: u8) -> bool {
+    (0x30 <= b <= 0x39) || (0x41 <= b <= 0x5A) || (0x61 <= b <= 0x7A)
+    || b == 0x2B || b == 0x2D || b == 0x2E || b == 0x5F || b == 0x40 || b == 0x24 || b == 0x3A || b == 0x3B || b == 0x2A || b == 0x3F
+}
+pub open spec fn main_safe(b: u8) -> bool { b > 0x20 && b != 0x7F && !is_delim(b) && b != 0x23 }
+pub proof fn lemma_safe_sets() ensures safe_ok(|b: u8| incr_safe(b)), safe_ok(|b: u8| main_safe(b)) {}
